@@ -7,33 +7,38 @@ namespace Drv.C08
 def presented (l : Line) : _root_.C04.Presented :=
   { clientID := str l "cid", secret := str l "secret", assertion := if str l "auth" == "assertion" then some (parseToken l) else none }
 
-def evOf (l : Line) : Option _root_.C08.Ev :=
+def tokOf (l : Line) (label : String) (refresh : Bool) : _root_.C08.Tok :=
+  { label := label, client := str l "client", subject := str l "sub", audience := list l "aud", issuer := str l "iss",
+    refresh := refresh, grant := str l "grant" }
+
+/-- the observable events of a line (a token response hands out an access token and possibly a refresh token) -/
+def evsOf (l : Line) : List _root_.C08.Ev :=
   match str l "op" with
-  | "issue" => some (.issued { label := str l "label", client := str l "client", subject := str l "sub", audience := list l "aud" })
-  | "expire" => some (.expired (str l "label"))
-  | "userinfo" => some (.userinfo (str l "tok") (nat l "o.status") (opt l "o.sub"))
-  | "introspect" => some (.introspect (presented l) (str l "tok") (nat l "o.status") (bool l "o.active") (list l "o.members"))
-  | "revoke" => some (.revoke (presented l) (str l "tok") (nat l "o.status") (bool l "o.performed"))
-  | "endsession" => some (.endSession (str l "sub") (str l "client") (nat l "o.status") (bool l "o.terminated"))
-  | "exchange" => some (.exchange (str l "tok") (bool l "o.success"))
-  | _ => none
+  | "issue" => [.issued (tokOf l (str l "label") false)] ++ (if str l "rtlabel" != "" then [.issued (tokOf l (str l "rtlabel") true)] else [])
+  | "expire" => [.expired (str l "label")]
+  | "userinfo" => [.userinfo (str l "iss") (str l "tok") (nat l "o.status") (opt l "o.sub")]
+  | "introspect" => [.introspect (str l "iss") (presented l) (str l "tok") (nat l "o.status") (bool l "o.active") (list l "o.members")]
+  | "revoke" => [.revoke (str l "iss") (presented l) (str l "tok") (nat l "o.status") (bool l "o.performed")]
+  | "endsession" => [.endSession (str l "sub") (str l "client") (nat l "o.status") (bool l "o.terminated")]
+  | "exchange" => [.exchange (str l "iss") (str l "tok") (bool l "o.success")]
+  | "refresh" => [.refresh (str l "iss") (str l "tok") (bool l "o.success") (bool l "o.rotated")]
+  | _ => []
 
 def monStep (m : _root_.C08.MonState) (l : Line) : _root_.C08.MonState × Option String :=
   if str l "op" == "reset" then
     ({ base := { issuer := str l "issuer", clients := Drv.Flow.parseClients l, jwtMaxAgeIAT := 3600 * Go.second, jwtOffset := Go.second } }, none)
   else if str l "obs" == "panic" then (m, some "panic")
-  else match evOf l with
-    | none => (m, none)
-    | some e =>
-      let now0 := int l "now0"
-      let now1 := int l "now1"
-      let v := match _root_.C08.judge m now0 e, _root_.C08.judge m now1 e with
+  else
+    let now0 := int l "now0"
+    let now1 := int l "now1"
+    (evsOf l).foldl (fun (acc : _root_.C08.MonState × Option String) e =>
+      let v := match _root_.C08.judge acc.1 now0 e, _root_.C08.judge acc.1 now1 e with
         | some a, some _ => some a
         | _, _ => none
-      (_root_.C08.update m now0 e, v)
+      (_root_.C08.update acc.1 now0 e, acc.2 <|> v)) (m, none)
 
 def cls (l : Line) : String :=
-  s!"{str l "op"}:{str l "p.kind"}:{nat l "o.status"}:{if bool l "o.active" then "active" else ""}{if bool l "o.success" then "accepted" else ""}"
+  s!"{str l "op"}:{str l "p.kind"}:{if bool l "cross" then "x-issuer" else ""}:{nat l "o.status"}:{if bool l "o.active" then "active" else ""}{if bool l "o.success" then "accepted" else ""}"
 
 def stepMon (m : _root_.C08.MonState) (l : Line) : _root_.C08.MonState × String :=
   let (m', v) := monStep m l
